@@ -177,9 +177,17 @@ class LoopSpec:
                 elif isinstance(n, ast.For):
                     tg = [n.target]
                 for t in tg:
-                    for m in ast.walk(t):
-                        if isinstance(m, ast.Name) and m.id not in names:
-                            names.append(m.id)
+                    # only rebinding of names counts; x[i] = v / x.f = v mutate an object (declared via __mutated__)
+                    stack = [t]
+                    while stack:
+                        m = stack.pop()
+                        if isinstance(m, ast.Name):
+                            if m.id not in names:
+                                names.append(m.id)
+                        elif isinstance(m, (ast.Tuple, ast.List)):
+                            stack.extend(m.elts)
+                        elif isinstance(m, ast.Starred):
+                            stack.append(m.value)
         return names
 
     def havoc_value(self, ip, name, cur):
@@ -402,6 +410,7 @@ class Contract:
     bounded: str | None = None
     skip_cases: Callable | None = None
     note: str = ""
+    vacuous_ok: bool = False     # cases whose precondition is unsatisfiable are expected (recorded, not flagged)
 
     @property
     def short(self) -> str:
@@ -470,10 +479,11 @@ class Registry:
 
     # ---- registration API used by the sidecar
     def contract(self, key: str, props: list[str], cases: dict | None = None, group: str | None = None, rank: int = 0,
-                 trusted: str | None = None, bounded: str | None = None, skip_cases=None, note: str = ""):
+                 trusted: str | None = None, bounded: str | None = None, skip_cases=None, note: str = "",
+                 vacuous_ok: bool = False):
         def deco(fn):
             ct = Contract(key, fn, props, cases or {}, group, rank, trusted=trusted, bounded=bounded,
-                          skip_cases=skip_cases, note=note)
+                          skip_cases=skip_cases, note=note, vacuous_ok=vacuous_ok)
             if key.startswith("virtual:"):
                 cls, meth = key[len("virtual:"):].split(".")
                 self.virtuals[(cls, meth)] = ct
@@ -747,7 +757,7 @@ def verify_function(src, registry: Registry, schema_factory, models, ct: Contrac
                 rep.inlined |= ip.inline_log
                 rep.callee_contracts |= ip.called_contracts
             rep.witnesses.append((cname, r.outcome, r.path))
-        if feasible == 0:
+        if feasible == 0 and not ct.vacuous_ok:
             rep.vacuous_cases.append(cname)
     rep.seconds = time.time() - t0
     if rep.unsupported:
